@@ -30,7 +30,7 @@ def case_strategy(draw):
     nf = draw(st.integers(1, 40))
     nm = draw(st.integers(1, 25))
     rng = np.random.default_rng(draw(gen.SEEDS))
-    layout = draw(st.sampled_from(["uniform", "clustered", "overlapped"]))
+    layout = draw(st.sampled_from(["uniform", "clustered", "overlapped", "far-tight"]))
     if layout == "uniform":
         fixed = rng.uniform(-5, 5, (nf, 3))
         mob = rng.uniform(-5, 5, (nm, 3))
@@ -39,6 +39,11 @@ def case_strategy(draw):
         fixed = centres[rng.integers(0, len(centres), nf)] + rng.normal(0, 0.3, (nf, 3))
         mob = rng.uniform(-5, 5, (nm, 3))
         mob[:len(centres)] = centres[:nm] + rng.normal(0, 0.05, (min(nm, len(centres)), 3))
+    elif layout == "far-tight":
+        # both sets far from the origin (box scale) and almost perfectly overlapped
+        shift = gen.unit(rng) * 10.0 ** rng.uniform(1, 3)
+        mob = rng.uniform(-1, 1, (nm, 3)) + shift
+        fixed = mob[rng.integers(0, nm, nf)] + rng.normal(0, 10.0 ** rng.uniform(-6, -3), (nf, 3))
     else:
         mob = rng.uniform(-1, 1, (nm, 3))
         fixed = mob[rng.integers(0, nm, nf)] + rng.normal(0, 0.1, (nf, 3))
@@ -61,7 +66,8 @@ def case_strategy(draw):
     if restr:
         order = rng.permutation(len(restr))
         restr = [restr[i] for i in order]
-    evals = [(mob + rng.normal(0, 0.5, mob.shape)).tolist(),
+    jitter = 0.5 if layout != "far-tight" else 10.0 ** rng.uniform(-6, -3)
+    evals = [(mob + rng.normal(0, jitter, mob.shape)).tolist(),
              (mob @ gen.random_rotation(rng).T + rng.uniform(-1, 1, 3)).tolist(),
              mob.tolist()]
     return {"fixed": fixed.tolist(), "built_with": mob.tolist(), "restr": restr, "rkind": kind,
@@ -115,7 +121,7 @@ def check(case):
     mob = np.array(case["evals"][0], float)
     base = float(lib("evaluate", calc, mob))
     _, _, tie0 = _expect(case["fixed"], case["evals"][0], rlist)
-    if not tie0:
+    if not tie0 and case["layout"] != "far-tight":     # (a rigid motion of far-tight sets is itself ill-conditioned)
         R = gen.random_rotation(rng)
         t = rng.uniform(-10, 10, 3)
         calc2 = lib("construct", gaddlemaps.Chi2Calculator, fixed @ R.T + t, built @ R.T + t, restr if restr else None)
